@@ -981,3 +981,89 @@ func valueKey(v ssa.Value) string {
 	}
 	return v.Name()
 }
+
+// wrapperHoldsItsRegistries (C03/C14/C15 constructor clause): the wrapper a
+// constructor builds holds, in its registry-typed fields, exactly the
+// registries it was given — each field one parameter (through interface
+// conversions only), and two registry parameters go to two different fields.
+func wrapperHoldsItsRegistries(c *core.Ctx, rule, rel, name string) {
+	ctor := c.P.Func(rel, name)
+	if ctor == nil {
+		return
+	}
+	c.Analysed(facts.FuncName(ctor))
+	isReg := func(t types.Type) bool {
+		for _, n := range []string{"Interface", "Reader", "Writer", "Deleter", "Lister", "ReadWriter"} {
+			if isNamed(t, "oci/ociregistry", n) {
+				return true
+			}
+		}
+		return false
+	}
+	nRegParams := 0
+	for _, p := range ctor.Params {
+		if isReg(p.Type()) {
+			nRegParams++
+		}
+	}
+	strip := func(v ssa.Value) ssa.Value {
+		for d := 0; d < 4; d++ {
+			switch x := facts.Resolve(v).(type) {
+			case *ssa.ChangeInterface:
+				v = x.X
+			case *ssa.MakeInterface:
+				v = x.X
+			case *ssa.ChangeType:
+				v = x.X
+			default:
+				return facts.Resolve(v)
+			}
+		}
+		return facts.Resolve(v)
+	}
+	n := 0
+	usedParam := map[int]string{}
+	for _, b := range ctor.Blocks {
+		for _, in := range b.Instrs {
+			al, ok := in.(*ssa.Alloc)
+			if !ok {
+				continue
+			}
+			st := structOf(al.Type())
+			if st == nil {
+				continue
+			}
+			for i := 0; i < st.NumFields(); i++ {
+				f := st.Field(i)
+				if !isReg(f.Type()) {
+					continue
+				}
+				v, has := blobLiteralFieldOf(al, f.Name())
+				if !has {
+					continue
+				}
+				n++
+				pi := -1
+				for j := range ctor.Params {
+					if argIsParam(strip(v), ctor, j) {
+						pi = j
+					}
+				}
+				key := name + "/holds-its-argument/" + f.Name()
+				if pi < 0 {
+					c.Fail(rule, key, al.Pos(), name+" stores in field "+f.Name()+" a registry that is not one of its arguments (e.g. the inner registry of a wrapper it unwraps, or one wrapped once more): calls reach a different registry than the one the caller composed")
+					continue
+				}
+				if prev, dup := usedParam[pi]; dup && nRegParams > 1 && prev != f.Name() {
+					c.Fail(rule, key, al.Pos(), name+" stores the same argument in fields "+prev+" and "+f.Name()+": one of the registries it was given is never consulted")
+					continue
+				}
+				usedParam[pi] = f.Name()
+				c.OK(rule, key, al.Pos(), "field "+f.Name()+" is the constructor's argument")
+			}
+		}
+	}
+	if n == 0 {
+		c.Fail(rule, name+"/holds-its-argument/instance-floor", ctor.Pos(), name+" no longer builds a wrapper holding a registry")
+	}
+}
